@@ -32,6 +32,9 @@ type dcfg struct {
 	maxFaults   int
 	maxRestarts int
 	maxRemote   int
+	// zero: build the DistributedConfig with every optional field left at its zero value
+	// (Mode "", EpochPeriod 0, EpochGrace 0) - the documented defaults must behave like the explicit ones
+	zero bool
 }
 
 type dsys struct {
@@ -90,9 +93,11 @@ func newDsys(c dcfg) *dsys {
 
 // boot builds a NEW allocator on the current store and starts it.
 func (s *dsys) boot() error {
-	da, err := allocator.NewDistributedAllocator(allocator.DistributedConfig{
-		PoolID: poolID, BaseNetwork: s.c.base, PrefixLen: 32, Mode: s.c.mode, EpochPeriod: time.Hour,
-	}, s.st)
+	dc := allocator.DistributedConfig{PoolID: poolID, BaseNetwork: s.c.base, PrefixLen: 32, Mode: s.c.mode, EpochPeriod: time.Hour}
+	if s.c.zero {
+		dc = allocator.DistributedConfig{PoolID: poolID, BaseNetwork: s.c.base, PrefixLen: 32, Mode: s.c.mode}
+	}
+	da, err := allocator.NewDistributedAllocator(dc, s.st)
 	if err != nil {
 		panic(err)
 	}
@@ -610,17 +615,25 @@ func distModels(thorough bool) []*explore.Model {
 		q = b{6, 0, 2, 2, 3}
 	}
 	cfgs := []dcfg{
-		{"session/30", allocator.PoolModeSession, "10.0.0.0/30", 3, q.faults, q.restarts, q.remote},
-		{"lease/29", allocator.PoolModeLease, "10.0.0.0/29", 3, q.faults, q.restarts, q.remote},
-		{"lease/30", allocator.PoolModeLease, "10.0.0.0/30", 3, q.faults, q.restarts, q.remote},
+		{"session/30", allocator.PoolModeSession, "10.0.0.0/30", 3, q.faults, q.restarts, q.remote, false},
+		{"lease/29", allocator.PoolModeLease, "10.0.0.0/29", 3, q.faults, q.restarts, q.remote, false},
+		{"lease/30", allocator.PoolModeLease, "10.0.0.0/30", 3, q.faults, q.restarts, q.remote, false},
+		// Mode left unset: "session" by default (NewDistributedAllocator's default arm, every `mode == PoolModeLease` test)
+		{"mode-unset/30", allocator.PoolMode(""), "10.0.0.0/30", 3, q.faults, q.restarts, q.remote, true},
+		// lease mode with EpochPeriod/EpochGrace left unset (1h / 1 epoch by default)
+		{"lease-defaults/29", allocator.PoolModeLease, "10.0.0.0/29", 2, q.faults, q.restarts, q.remote, true},
 	}
 	var ms []*explore.Model
 	for _, c := range cfgs {
 		c := c
 		depth, exec := q.depth, bubble
-		if c.mode == allocator.PoolModeSession {
+		if c.name == "session/30" {
 			// session mode starts no goroutine and reads no clock that matters: no bubble needed, one level deeper
 			depth, exec = q.depth+1, nil
+		} else if c.mode != allocator.PoolModeLease {
+			exec = nil
+		} else if c.zero {
+			depth = q.depth - 1
 		}
 		ms = append(ms, &explore.Model{
 			Name:   "dist",
